@@ -78,8 +78,12 @@ fn untyped_elems() -> Vec<Fv> {
         Fv::Bool(true),
         Fv::I64(-1),
         Fv::I64(5),
+        Fv::I64(0),
+        Fv::U64(0),
+        Fv::I64(i64::MIN),
         Fv::U64(u64::MAX),
         Fv::F64(-0.0),
+        Fv::F64(f64::NEG_INFINITY),
         Fv::F32(2.71),
         Fv::Bytes(vec![1, 2]),
         Fv::Text("t".into()),
@@ -147,6 +151,29 @@ pub fn valid_values(ft: &Ft) -> Vec<Fv> {
             (0..n)
                 .map(|i| Fv::Array(cols.iter().map(|c| c[i % c.len()].clone()).collect()))
                 .collect()
+        }
+        // open map: declares nothing, every key kind and every variant goes
+        Ft::Map(m) if m.is_empty() => {
+            let elems = untyped_elems();
+            let keys = [Fk::Text("k".into()), Fk::I64(0), Fk::Bytes(vec![]), Fk::I64(i64::MIN), Fk::Text(String::new())];
+            vec![
+                Fv::Map(BTreeMap::new()),
+                Fv::Map(
+                    elems
+                        .iter()
+                        .enumerate()
+                        .map(|(i, e)| {
+                            let k = match i % 3 {
+                                0 => Fk::Text(format!("k{i}")),
+                                1 => Fk::I64(i as i64 - 4),
+                                _ => Fk::Bytes(vec![i as u8]),
+                            };
+                            (k, e.clone())
+                        })
+                        .collect(),
+                ),
+                Fv::Map(keys.iter().map(|k| (k.clone(), Fv::U64(0))).collect()),
+            ]
         }
         Ft::Map(m) => {
             if let Some((kind, t)) = is_wildcard(m) {
@@ -222,6 +249,10 @@ pub fn aliens() -> Vec<Fv> {
         Fv::Array(vec![Fv::U64(1), Fv::U64(256)]),
         Fv::Map(BTreeMap::new()),
         Fv::Map(BTreeMap::from([(Fk::Text("a".into()), Fv::U64(1))])),
+        // appended later (alien indexes are part of signatures: append only)
+        Fv::U64(0),
+        Fv::I64(0),
+        Fv::F64(-0.0),
     ]
 }
 
